@@ -455,6 +455,21 @@ func c12(e *Env) {
 		} else {
 			acc.merge(map[string]int{"unregistered:encode-nil-body-ok": 1})
 		}
+		// an Encode of a message that carries the unregistered key WITH a body of the caller's own choosing (encoders
+		// just write what they are given) must not teach the table that key: the factory still refuses afterwards
+		{
+			m3 := (&gen.Gen{S: e.S, C: e.C, R: g.R, O: &gen.Opts{NoNilBody: true}}).Value(owner)
+			setKeyField(m3, tc.uf.Key, key)
+			EncodeFresh(m3)
+			m4, ferr, fp2 := func() (m codec.BinaryCodec, err error, p *mon.Panic) {
+				err, p = mon.Call(func() error { var e2 error; m, e2 = tc.factory(key); return e2 })
+				return
+			}()
+			r.Evals(1)
+			if fp2 == nil && (ferr == nil || m4 != nil) {
+				r.Violate("C12/encode-registers-unregistered-key/"+tb.QName, "C12/encode-registers-unregistered-key/"+tb.QName, map[string]any{"type": owner.QName, "table": tb.QName, "key": fmtKey(key), "factory_answer_after_encode": fmt.Sprintf("%T", m4), "observed": "after one Encode of a message carrying this unregistered key together with a body, the factory answers for the key"})
+			}
+		}
 		// ... and the same message travelling inside its frame: the frame's Encode must report the refusal too
 		if tc.uf.Fill && p == nil {
 			if fr := frameCarrying(e, owner); fr != nil {
